@@ -195,6 +195,77 @@ theorem negative_digit_comp_correct {E : Env} {r : Nat} (h : EnvRadix E r) {F : 
   exact negativeDigitComp_correct lay hden hdbg (show r = 2 * (r / 2) by omega) Th T2 hM fp hm1 hm2 hp2 hfe he he'
     k q hk.symm hq.symm hfin hlo hhi hg.1 hg.2
 
+/-- the **weak** bracket, which is what the pipeline theorem (`Props.C01.Bracket`, there on the still-biased estimate) asks
+of the moderate path: the correctly rounded value is `b` or its successor, as bit patterns. `SlowBracket` implies it
+(`slowBracket_weak`); it is all `negative_digit_comp` needs. -/
+def WeakBracket (F : FTy) (fp : ExtendedFloat80) (num den : Nat) : Prop :=
+  roundedDown F fp ≤ roundNE F.fmt num den ∧ roundNE F.fmt num den ≤ roundedDown F fp + 1
+
+theorem slowBracket_weak {F : FTy} {p eb : Nat} (lay : Layout F p eb) (fp : ExtendedFloat80) {num den : Nat}
+    (hd : 0 < den) (hfin : roundedDown F fp < F.fmt.infBits) (h : SlowBracket F fp num den) :
+    WeakBracket F fp num den := by
+  have hf := lay.wf
+  unfold WeakBracket
+  unfold SlowBracket at h
+  obtain ⟨hlo, hhi⟩ := h
+  generalize roundedDown F fp = b at *
+  have hL : 0 < 2 ^ L F.fmt := Nat.two_pow_pos _
+  constructor
+  · obtain ⟨e1, e2⟩ := toFrac_decode hf hfin
+    have := roundNE_mono' hf e2 hd (a := (F.fmt.decode b).toFrac.1) (c := num) (by
+      apply Nat.le_of_mul_le_mul_right _ hL
+      calc (F.fmt.decode b).toFrac.1 * den * 2 ^ L F.fmt
+          = (F.fmt.decode b).toFrac.1 * 2 ^ L F.fmt * den := by ring
+        _ = ival F.fmt b * den * (F.fmt.decode b).toFrac.2 := by rw [e1]; ring
+        _ ≤ num * 2 ^ L F.fmt * (F.fmt.decode b).toFrac.2 := Nat.mul_le_mul_right _ hlo
+        _ = num * (F.fmt.decode b).toFrac.2 * 2 ^ L F.fmt := by ring)
+    rwa [roundNE_of_float' hf hfin] at this
+  · by_cases hb1 : b + 1 < F.fmt.infBits
+    · obtain ⟨e1, e2⟩ := toFrac_decode hf hb1
+      have := roundNE_mono' hf hd e2 (a := num) (c := (F.fmt.decode (b + 1)).toFrac.1) (by
+        apply Nat.le_of_mul_le_mul_right _ hL
+        calc num * (F.fmt.decode (b + 1)).toFrac.2 * 2 ^ L F.fmt
+            = num * 2 ^ L F.fmt * (F.fmt.decode (b + 1)).toFrac.2 := by ring
+          _ ≤ ival F.fmt (b + 1) * den * (F.fmt.decode (b + 1)).toFrac.2 := Nat.mul_le_mul_right _ hhi
+          _ = (F.fmt.decode (b + 1)).toFrac.1 * 2 ^ L F.fmt * den := by rw [e1]; ring
+          _ = (F.fmt.decode (b + 1)).toFrac.1 * den * 2 ^ L F.fmt := by ring)
+      rwa [roundNE_of_float' hf hb1] at this
+    · have := roundNE_le_infBits hf num hd
+      omega
+
+/-- **(c), weak-bracket form** — the precondition of the pipeline theorem suffices -/
+theorem negative_digit_comp_correct_weak {E : Env} {r : Nat} (h : EnvRadix E r) {F : FTy} {p eb : Nat}
+    (lay : Layout F p eb) (hden : F.C.denormalExponent = 1 - F.C.exponentBias)
+    {M : Nat} (hM : M ≠ 0) (fp : ExtendedFloat80) (hm1 : 2 ^ 63 ≤ fp.mant) (hm2 : fp.mant < 2 ^ 64)
+    (hp2 : -fp.exp + 1 ≤ 64) (hfe : fp.exp < 2 ^ 20) {e : Int} (he : e < 0) (he' : -(2 ^ 28 : Int) < e)
+    (hfin : roundedDown F fp < F.fmt.infBits) (hbr : WeakBracket F fp M (r ^ (-e).toNat))
+    (hg : NegGuard E F p r M fp e) :
+    ∃ res, negativeDigitComp E F r M fp e = some res ∧ 0 ≤ res.exp ∧
+      extendedToFloat F res = roundNE F.fmt M (r ^ (-e).toNat) := by
+  obtain ⟨hr2, hev, hdbg, _⟩ := envRadix_facts h
+  obtain ⟨_, Th, T2⟩ := bigPowOk_of_envRadix h
+  unfold NegGuard at hg
+  have hp := lay.hp; have hp64 := lay.hp64; have heb := lay.heb
+  have hfp : F.fmt.p = p := by rw [lay.fmt]
+  have hb : roundedDown F fp =
+      (fp.exp + 64 - p - 1).toNat * 2 ^ (p - 1) + fp.mant / 2 ^ shiftOf p fp.exp := by
+    unfold roundedDown
+    rw [round_down_bits lay fp hm1 hm2 hp2]
+    unfold encode
+    split
+    · rename_i hinf
+      exfalso
+      unfold roundedDown at hfin
+      rw [round_down_bits lay fp hm1 hm2 hp2] at hfin
+      unfold encode at hfin
+      rw [if_pos hinf] at hfin
+      exact Nat.lt_irrefl _ hfin
+    · rw [hfp]
+  obtain ⟨hlo, hhi⟩ := hbr
+  rw [hb] at hlo hhi hfin
+  exact negativeDigitComp_correct_weak lay hden hdbg (show r = 2 * (r / 2) by omega) Th T2 hM fp hm1 hm2 hp2 hfe
+    he he' _ _ rfl rfl hfin hlo hhi hg.1 hg.2
+
 /-! ## (d) `slow_radix` -/
 
 /-- the exponent `digit_comp` gives the big mantissa: leading digit at `radix^sciExp`, `c` digits -/
@@ -203,7 +274,7 @@ def digitExponent (sciExp : Int) (c : Nat) : Int := sciExp + 1 - c
 /-- **(d) `slow_radix_correct`**: `slow_radix(num, fp)` for a radix with a digit limit is `scientific_exponent`, then
 `parse_mantissa` (a), then `positive_digit_comp` (b) or `negative_digit_comp` (c), and the result is the correctly
 rounded value of `M·radix^e`, `(M, c) = mantissaOf …`, `e = sci_exp + 1 − c`, given the guard of (b), resp. the
-preconditions of (c). (`powFrac radix e M` is `M·radix^e` as a fraction.) -/
+preconditions of (c) in the weak-bracket form (`WeakBracket`; `slowBracket_weak` gives it from `SlowBracket`). (`powFrac radix e M` is `M·radix^e` as a fraction.) -/
 theorem slow_radix_correct {E : Env} {r : Nat} (h : EnvRadix E r) {F : FTy} {p eb : Nat}
     (lay : Layout F p eb) (hF : IsFloat F) (hden : F.C.denormalExponent = 1 - F.C.exponentBias) (radixFeature : Bool)
     {d : Nat} (hd : E.S.maxDigits F.fmt r = some d) (n : SNum) (fp : ExtendedFloat80)
@@ -217,7 +288,7 @@ theorem slow_radix_correct {E : Env} {r : Nat} (h : EnvRadix E r) {F : FTy} {p e
         2 ^ (64 * E.L.bigintLimbs))
     (hneg : digitExponent (scientificExponent r n.mantissa n.exponent) (mantissaOf r d (sigBytes n.integer n.fraction)).2 < 0 →
       2 ^ 63 ≤ fp.mant ∧ fp.mant < 2 ^ 64 ∧ -fp.exp + 1 ≤ 64 ∧ fp.exp < 2 ^ 20 ∧ roundedDown F fp < F.fmt.infBits ∧
-      SlowBracket F fp (mantissaOf r d (sigBytes n.integer n.fraction)).1
+      WeakBracket F fp (mantissaOf r d (sigBytes n.integer n.fraction)).1
         (r ^ (-digitExponent (scientificExponent r n.mantissa n.exponent) (mantissaOf r d (sigBytes n.integer n.fraction)).2).toNat) ∧
       NegGuard E F p r (mantissaOf r d (sigBytes n.integer n.fraction)).1 fp
         (digitExponent (scientificExponent r n.mantissa n.exponent) (mantissaOf r d (sigBytes n.integer n.fraction)).2)) :
@@ -275,7 +346,7 @@ theorem slow_radix_correct {E : Env} {r : Nat} (h : EnvRadix E r) {F : FTy} {p e
     exact positive_digit_comp_correct h hF hMpos he (by omega) (hpos he)
   · rw [if_neg he, if_neg he]
     obtain ⟨a1, a2, a3, a4, a5, a6, a7⟩ := hneg (by omega)
-    exact negative_digit_comp_correct h lay hden hMpos fp a1 a2 a3 a4 (by omega) (by omega) a5 a6 a7
+    exact negative_digit_comp_correct_weak h lay hden hMpos fp a1 a2 a3 a4 (by omega) (by omega) a5 a6 a7
 
 /-! ## the value that is rounded -/
 
@@ -375,7 +446,7 @@ def slow_radix_correct_full : Prop :=
         2 ^ (64 * E.L.bigintLimbs)) →
     (digitExponent (scientificExponent r n.mantissa n.exponent) (mantissaOf r d (sigBytes n.integer n.fraction)).2 < 0 →
       2 ^ 63 ≤ fp.mant ∧ fp.mant < 2 ^ 64 ∧ -fp.exp + 1 ≤ 64 ∧ fp.exp < 2 ^ 20 ∧ roundedDown F fp < F.fmt.infBits ∧
-      SlowBracket F fp (mantissaOf r d (sigBytes n.integer n.fraction)).1
+      WeakBracket F fp (mantissaOf r d (sigBytes n.integer n.fraction)).1
         (r ^ (-digitExponent (scientificExponent r n.mantissa n.exponent) (mantissaOf r d (sigBytes n.integer n.fraction)).2).toNat) ∧
       NegGuard E F p r (mantissaOf r d (sigBytes n.integer n.fraction)).1 fp
         (digitExponent (scientificExponent r n.mantissa n.exponent) (mantissaOf r d (sigBytes n.integer n.fraction)).2)) →
